@@ -231,7 +231,7 @@ pub fn check_limit(l: &Limit) -> Check {
     let now = crate::engine::catch(|| snap(&mut pkg)).map_err(|(loc, msg)| Fail::new(format!("{P} panic at={loc}"), format!("{l:?}: reading the package afterwards panicked: {msg}")))?.map_err(|f| Fail::new(f.sig, format!("{l:?}: {}", f.detail)))?;
     if res.is_err() {
         if let Some((part, d)) = before.diff(&now) {
-            return Err(Fail::new(format!("{P} changed-by-rejected-call part={part}"), format!("{l:?}: the call returned Err but {part} changed: {}", &d[..d.len().min(300)])));
+            return Err(Fail::new(format!("{P} changed-by-rejected-call part={part}"), format!("{l:?}: the call returned Err but {part} changed: {}", crate::engine::clip(&d, 300))));
         }
     }
     // ... and the file it saves is one the library itself can read back, equal
@@ -249,7 +249,7 @@ pub fn check_limit(l: &Limit) -> Check {
     let mut again = Package::open(SharedBuf::new(bytes)).map_err(|e| Fail::new(format!("{P} saved-file-unreadable"), format!("{l:?}: the library cannot open the file it saved: {e}")))?;
     let after = observe(&mut again).map_err(|e| Fail::new(format!("{P} saved-file-unreadable"), format!("{l:?}: the library cannot read the file it saved: {e}")))?;
     if let Some((part, d)) = now.canon().diff(&after.canon()) {
-        return Err(Fail::new(format!("{P} round-trip part={part}"), format!("{l:?}: after save + reopen {part} differs: {}", &d[..d.len().min(300)])));
+        return Err(Fail::new(format!("{P} round-trip part={part}"), format!("{l:?}: after save + reopen {part} differs: {}", crate::engine::clip(&d, 300))));
     }
     Ok(())
 }
